@@ -234,6 +234,21 @@ def extras(ctx):
         ctx.oracle('C08 object-level velocity/displacement == array-level result for the time step given to the constructor (dt with 1/dt near a whole number); '
                    'the object reports that time step', bool(on.dt == dtn and np.array_equal(on.velocity, wv) and np.array_equal(on.displacement, wd)),
                    {'a': a, 'dt': dtn}, detail={'object dt': on.dt})
+        # (a2) the time step may be held by a NumPy scalar or a 0-d array (np.load(...)['dt']): never modified, same result, also at object level
+        if it % 3 == 0:
+            dq = rng.choice([0.01, 0.02, 0.5, 0.25, 1.0])
+            for trap in (True, False):
+                gen.dt_oracle(ctx, 'C08 the time step object handed to calc_velo_and_disp_from_accel_arr is unchanged, a second call gives the same series, '
+                              'and they are those for the plain float', lambda d, trap=trap: sd.calc_velo_and_disp_from_accel_arr(a, d, trap=trap), rng, dq, gen._same_any,
+                              {'a': a, 'trap': trap})
+
+            def obj_level(d):
+                o = eqsig.AccSignal(a, d)
+                v1, d1 = np.array(o.velocity), np.array(o.displacement)
+                o.reset_values(a.copy())
+                return v1, d1, np.array(o.velocity), np.array(o.displacement), np.asarray(o.dt, dtype=float).reshape(-1)[:1]
+            gen.dt_oracle(ctx, 'C08 object level: the time step object given to AccSignal is unchanged, the series (also regenerated after a reset) and the reported '
+                          'time step are those for the plain float', obj_level, rng, dq, gen._same_any, {'a': a})
         # (a) documented aliases are the same functions
         for trap in (True, False):
             r0 = call_impl(sd.calc_velo_and_disp_from_accel_arr, a, dt, trap=trap)
@@ -242,6 +257,15 @@ def extras(ctx):
                        r0[0] == r1[0] and (r0[0] != 'ok' or all(np.array_equal(x, y) for x, y in zip(r0[1], r1[1]))), {**inputs, 'trap': trap})
         r0, r1 = call_impl(im.calc_peak, a), call_impl(im.calculate_peak, a)
         ctx.oracle('C08 alias calculate_peak == calc_peak (==)', r0 == r1 or (r0[0] == r1[0] == 'ok' and fr(r0[1]) == fr(r1[1])), inputs, detail=(r0, r1))
+        # (b0) analysis functions that READ the object's velocity / displacement leave them what they are
+        oa = eqsig.AccSignal(a, dt)
+        _ = oa.velocity
+        for nm in ('calc_integral_of_abs_velocity', 'calc_cumulative_abs_displacement', 'calc_isv', 'calc_unit_kinetic_energy', 'calc_arias_intensity', 'calc_cav'):
+            call_impl(getattr(im, nm), oa)
+        wv, wd = sd.calc_velo_and_disp_from_accel_arr(a, dt)
+        ctx.oracle('C08 object-level velocity / displacement / pgv / pgd are still those of the record after velocity-based analysis functions were called on the object',
+                   bool(np.array_equal(oa.velocity, wv) and np.array_equal(oa.displacement, wd) and float(oa.pgv) == float(np.max(np.abs(wv))) and float(oa.pgd) == float(np.max(np.abs(wd)))),
+                   inputs, detail={'velocity_ok': bool(np.array_equal(oa.velocity, wv)), 'displacement_ok': bool(np.array_equal(oa.displacement, wd))})
         # (b) linearity observed on ONE object: the series read before the record is replaced stay what they were
         asig = eqsig.AccSignal(a, dt)
         trap0 = rng.random() < 0.7
